@@ -616,11 +616,6 @@ func c16WriteTrees(ctx *core.Ctx) {
 		ctx.Hist("tree-caller-layout", in.layout)
 		delivered := strings.ContainsAny(lv, "123456789")
 		c16Count(ctx, req, wrappers > 0 && delivered && (len(in.calls) >= 2 || in.nrows >= 43))
-		if tree.kind == 'F' && tree.kids[0].kind == 'S' && tree.kids[0].failAt < 1000 && !strings.Contains(rets, ":1") && strings.Count(lv, "|")+2 <= len(in.calls) {
-			// outside C16 (an error-propagation matter): the sink failed, the filter reported success
-			ctx.Observe("filter-row-writer-swallows-write-error", "FilterRowWriter.WriteRows returns a nil error although the underlying writer failed (filter.go: `_, err := f.writer.WriteRows(...)` shadows the named result before `break`); the Lean mirror reproduces it (theorem filter_swallows_sink_error)",
-				map[string]any{"request": req, "returns(n:err)": rets})
-		}
 		if panicked != nil {
 			ctx.Fail("L1", "library-panic:writeside-tree", "a row-writer wrapper panicked on valid rows: "+fmt.Sprint(panicked), map[string]any{"request": req})
 			continue
